@@ -320,7 +320,7 @@ func init() {
 		}
 		n := 2500
 		if thorough() {
-			n = 10000
+			n = 80000
 		}
 		var jobs []func()
 		for i := 0; i < n; i++ {
